@@ -1,16 +1,16 @@
 SPECIFICATION SpecAtomic
 CONSTANTS
-  NC = 2
-  NW = 1
+  NC = 1
+  NW = 2
   Mode = "exact"
   AtomicQueue = TRUE
   StaleTimeout = FALSE
   StaleLists = FALSE
   ThresholdBefore = TRUE
   ProbeCheckUpdated = TRUE
-  QuotaErrors = FALSE
+  QuotaErrors = TRUE
   InitStates = {"Queued"}
-  B <- BCrash
+  B <- BNone
   MaxHist = 0
 VIEW view
 INVARIANTS TypeOK AtMostOneProc OneRunner
